@@ -106,7 +106,7 @@ def c20_hook(state):
                         out["violations"].append({"kind": "atomic:model_differs", "detail": "model and implementation "
                                                   "disagree on a mixed action", "replay": dict(rp, model=m[:2000])})
         # 4. a failed step through the environment: doctored offer list, episode must end truncated
-        if not env.done and stepinfo is not None and rng.random() < 0.04:
+        if not env.done and rng.random() < (0.04 if stepinfo is not None else 0.15):
             m = s.machines[0]
             ns = list(MS)[MACH_INVALID[list(MS).index(m.state)][0]]
             bad = ComponentTransition(m.id, ns, s.jobs[0].id)
